@@ -112,22 +112,25 @@ func (e *ExecutionConfig) ProposerConfig(_ context.Context,
 
 	// At this point we definitely have a proposer config, however
 	// if it was the default config it is possible that some elements
-	// are missing.  Fill them in here.
-	if proposerConfig.GasLimit == 0 {
-		proposerConfig.GasLimit = fallbackGasLimit
+	// are missing.  Fill them in here, without altering the configuration
+	// itself as it is shared with other callers.
+	gasLimit := proposerConfig.GasLimit
+	if gasLimit == 0 {
+		gasLimit = fallbackGasLimit
 	}
-	if proposerConfig.Builder == nil {
-		proposerConfig.Builder = &BuilderConfig{}
+	builder := proposerConfig.Builder
+	if builder == nil {
+		builder = &BuilderConfig{}
 	}
 
 	relays := make([]*beaconblockproposer.RelayConfig, 0)
-	if proposerConfig.Builder.Enabled {
-		for _, relayAddress := range proposerConfig.Builder.Relays {
+	if builder.Enabled {
+		for _, relayAddress := range builder.Relays {
 			relays = append(relays, &beaconblockproposer.RelayConfig{
 				Address:      relayAddress,
 				FeeRecipient: proposerConfig.FeeRecipient,
-				GasLimit:     proposerConfig.GasLimit,
-				Grace:        proposerConfig.Builder.Grace,
+				GasLimit:     gasLimit,
+				Grace:        builder.Grace,
 				// MinValue is not available in V1.
 				MinValue: decimal.Zero,
 			})
